@@ -499,6 +499,8 @@ inductive Step where
 	}
 	emit("processPartialSteps", "internal/chain/beacon: `Handler.ProcessPartialBeacon`",
 		skeleton(findFunc("internal/chain/beacon", "Handler", "ProcessPartialBeacon").Body.List, "ProcessPartialBeacon"))
+	emit("broadcastNextPartialSteps", "internal/chain/beacon: `Handler.broadcastNextPartial`",
+		skeleton(findFunc("internal/chain/beacon", "Handler", "broadcastNextPartial").Body.List, "broadcastNextPartial"))
 	emit("tryAppendSteps", "internal/chain/beacon: `chainStore.tryAppend`",
 		skeleton(findFunc("internal/chain/beacon", "chainStore", "tryAppend").Body.List, "tryAppend"))
 	{
